@@ -411,6 +411,10 @@ def gen_history(seed, tier, classes=None, weights=None, n_ops=(6, 16),
                       m=r.randint(4, 12), noise=r.choice([0, 0.2, 0.5]),
                       dups=r.random() < 0.4, cp=gen_cp(r, inv),
                       via="indices" if (s.pre and r.random() < 0.5) else "formed"))
+      if not inv and r.random() < 0.25:
+        ops[-1]["in_fit_buffers"] = True
+        if s.pre:
+          ops[-1]["via"] = "indices"
     elif k == "handout":
       what = r.choice(["metric", "M"])
       ops.append(dict(op="handout", h=s.hid, what=what, seed=r.randrange(1000)))
@@ -620,12 +624,53 @@ def gen_crash_sweep(seed, classes, dmax):
   return plan
 
 
+def _gen_medium_wide(seed, r):
+  """Moderately wide data (24-48 features): the regime in which the exact bits of
+  an answer start to depend on how an array lies in memory (BLAS kernels), i.e.
+  where a fitted model that changes its memory layout when pickled shows."""
+  d = r.randint(24, 48)
+  c = r.choice([2, 3, 4])
+  desc = dict(kind="blobs", seed=r.randrange(10**6), n=r.randint(4 * d + 10, 4 * d + 60), d=d, classes=c,
+              extra=0, cond=r.choice([1, 10]), scale=0, sep=r.choice([1.0, 2.0]))
+  plan = dict(run_seed=seed, datasets={"D0": desc}, ops=[], world=dict(jumpy_clock=False, fresh_restarts=0))
+  ops = plan["ops"]
+  name = r.choice(["LFDA", "LFDA", "LFDA", "Covariance", "NCA", "MLKR", "LMNN", "RCA_Supervised"])
+  p = {}
+  if name == "LFDA":
+    p = dict(embedding_type=r.choice(["weighted", "plain", "orthonormalized"]),
+             n_components=r.choice([None, None, d // 2, 5]), k=r.choice([None, 3, 7]))
+  elif name in ("NCA", "MLKR", "LMNN"):
+    p = dict(n_components=r.choice([None, 5, d // 2]), init=r.choice(["auto", "pca", "identity"]),
+             max_iter=r.choice([1, 2]), random_state=r.randrange(10**6))
+    if name == "LMNN":
+      p["n_neighbors"] = r.choice([1, 2])
+  elif name == "RCA_Supervised":
+    p = dict(n_chunks=d + 10, chunk_size=2, random_state=r.randrange(10**6), n_components=r.choice([None, d // 2]))
+  ops.append(dict(op="new", h=0, cls=name, params=p))
+  ops.append(dict(op="fit", h=0, data="D0", via="formed"))
+  for _ in range(r.randint(2, 4)):
+    k = r.choice(["restart", "restart", "query", "refit", "clone"])
+    if k == "restart":
+      ops.append(dict(op="restart", h=0, how="inproc"))
+    elif k == "query":
+      ops.append(dict(op="query", h=0, method=r.choice(["transform", "pair_distance", "get_mahalanobis_matrix"]),
+                      probe=dict(data="D0", seed=r.randrange(1000), m=4, kind="plain", via="formed")))
+    elif k == "refit":
+      ops.append(dict(op="fit", h=0, data="D0", via="formed"))
+    else:
+      ops.append(dict(op="clone", h=0, h2=1))
+      ops.append(dict(op="fit", h=1, data="D0", via="formed"))
+  return plan
+
+
 def gen_wide_history(seed):
   """A short history on a *wide* dataset (more than 500 samples, 50-64
   features): the regime in which dependencies switch to randomised solvers
   (scikit-learn's PCA, for one), i.e. where hidden randomness can enter a fit
   whose random_state is an integer."""
   r = substream(seed, "hist-wide-plan")
+  if r.random() < 0.5:
+    return _gen_medium_wide(seed, r)
   d = r.randint(52, 64)
   c = r.choice([2, 3, 4])
   desc = dict(kind="blobs", seed=r.randrange(10**6), n=r.randint(505, 530), d=d, classes=c,
